@@ -507,6 +507,30 @@ def _check_precedence(ctx, spec, n, origin, rng):
         except Exception as e:
             ctx.violation('eval-undefined-name', f'undefined name {undefined!r} raised {type(e).__name__}: {e}', case)
         ctx.count('eval_calls')
+    # a caller-supplied helper table replaces the package's: an empty one ({}) disables the helpers altogether, so their names
+    # are undefined like any other (unless the caller's globals= provide them)
+    for table, expr, want_v in (({}, 'X + 1', base + 1), ({'twice': lambda x: x * 2}, 'twice(X) + 1', base * 2 + 1)):
+        ctx.evaluation(('own-helper-table', spec.kind, n, expr), nontrivial=True)
+        got = c.eval(expr, builtins=dict(table))
+        ctx.count('eval_calls')
+        if not same(got, want_v):
+            ctx.violation('eval-helpers', f'eval({expr!r}, builtins={sorted(table)}) = {got!r}', {'kind': 'own-helper-table', 'span_kind': spec.kind, 'n': n})
+        for helper in ('lag', 'lead', 'diff', 'dlog', 'exp', 'log'):
+            case = {'kind': 'undefined', 'span_kind': spec.kind, 'n': n, 'origin': origin, 'name': helper, 'builtins': sorted(table)}
+            ctx.evaluation(('own-helper-table-undef', spec.kind, n, helper, len(table)), nontrivial=True)
+            ctx.count('eval_calls')
+            try:
+                got = c.eval(f'{helper}(X)', builtins=dict(table))
+                ctx.violation('eval-undefined-name', f'with builtins={sorted(table)} the helper {helper!r} is not defined, yet {helper}(X) evaluated to {got!r}', case)
+            except AttributeError as e:
+                if helper not in str(e):
+                    ctx.violation('eval-undefined-name', f'AttributeError does not name {helper!r}: {e}', case)
+            except Exception as e:
+                ctx.violation('eval-undefined-name', f'undefined helper {helper!r} (builtins={sorted(table)}) raised {type(e).__name__}: {e}', case)
+            got = c.eval(f'{helper}(X)', builtins=dict(table), globals={helper: lambda x: x * 100.0})
+            ctx.count('eval_calls')
+            if not same(got, base * 100.0):
+                ctx.violation('eval-helpers', f'with builtins={sorted(table)} and globals providing {helper!r}, {helper}(X) = {got!r} instead of the caller\'s function\'s result', case)
     # ... whatever the other names look like: several equally close candidates (names differing only in case, or by one character)
     crowd = VectorContainer(spec.make())
     for nm in ('YD_r', 'yd_r', 'Yd_r', 'C', 'c', 'alpha', 'alphb', 'alphc'):
